@@ -73,6 +73,7 @@ const FOCUS: &[(&str, &[&str])] = &[
             "extend schema{mutation:Mutation}",
             "extend schema @d(n:1)",
             "extend schema @d(n:3){subscription:Subscription}",
+            "extend schema @d(n:4){mutation:Mutation}",
         ],
     ),
     (
@@ -107,6 +108,8 @@ const FOCUS: &[(&str, &[&str])] = &[
             "directive @specifiedBy(url:String!) on SCALAR",
             "directive @include(if:Boolean!) on FIELD|FRAGMENT_SPREAD|INLINE_FRAGMENT",
             "extend type Q{\"ext field\" g:Int @deprecated}",
+            "extend type __Type{extra:Int}",
+            "extend enum __TypeKind{EXTRA}",
         ],
     ),
 ];
